@@ -192,17 +192,17 @@ impl<const N: usize> core::fmt::Write for Rec<N> {
 /// A Hasher that records the sequence of typed write calls, so that two
 /// values "hash identically for every hasher" iff their traces are equal.
 pub(crate) struct TraceHasher {
-    pub ev: [(u8, u128); 12],
+    pub ev: [(u8, u128); 4],
     pub n: usize,
     pub overflow: bool,
 }
 
 impl TraceHasher {
     pub(crate) fn new() -> Self {
-        TraceHasher { ev: [(0, 0); 12], n: 0, overflow: false }
+        TraceHasher { ev: [(0, 0); 4], n: 0, overflow: false }
     }
     fn rec(&mut self, tag: u8, v: u128) {
-        if self.n < 12 {
+        if self.n < 4 {
             self.ev[self.n] = (tag, v);
             self.n += 1;
         } else {
@@ -214,7 +214,7 @@ impl TraceHasher {
             return false;
         }
         let mut i = 0;
-        while i < 12 {
+        while i < 4 {
             if i < self.n && (self.ev[i].0 != o.ev[i].0 || self.ev[i].1 != o.ev[i].1) {
                 return false;
             }
@@ -274,4 +274,16 @@ impl core::hash::Hasher for TraceHasher {
 /// test; they do not influence any checked result.
 pub(crate) fn format_stub(_args: core::fmt::Arguments<'_>) -> String {
     String::new()
+}
+
+/// Stub for std::hash::RandomState::new (reads the OS random source, which CBMC
+/// cannot model): fixed SipHash keys.  Hash-map *contents* do not depend on them.
+pub(crate) fn random_state_stub() -> std::hash::RandomState {
+    unsafe { core::mem::transmute::<(u64, u64), std::hash::RandomState>((1, 2)) }
+}
+
+/// Stub for the private error constructors ops::failed_op / ops::impossible_op: same kind, no
+/// formatted detail (building and dropping the formatted message is what CBMC chokes on).
+pub(crate) fn op_error_stub(_op: &str, _lhs: &crate::Value, _rhs: &crate::Value) -> crate::Error {
+    crate::Error::from(crate::ErrorKind::InvalidOperation)
 }
